@@ -159,7 +159,19 @@ Proof. constructor; simpl; intros.
   - discriminate.
   - discriminate. Qed.
 
-Hypothesis M_local : forall i j x y, (forall a, In a (scope i) -> x a = y a) -> M i j x = M i j y.
+(* locality of the true messages, per variable (what `up` gives directly) *)
+Definition indep (a : nat) (f : tbl) := forall x v, f (upd x a v) = f x.
+Hypothesis M_indep : forall i j a, ~ In a (scope i) -> indep a (M i j).
+
+Lemma indep_agree l : forall (f : tbl) x y, (forall a, In a l -> indep a f) -> agree_out l x y -> f y = f x.
+Proof. induction l as [|a r IH]; intros f x y HI A.
+  - f_equal. extensionality b. apply A. intros [].
+  - set (y1 := upd y a (x a)).
+    assert (A1 : agree_out r x y1).
+    { intros b Hb. unfold y1, upd. destruct (Nat.eqb_spec b a) as [->|N]; auto. apply A. intros [E|E]; auto. }
+    rewrite <- (IH f x y1 (fun b Hb => HI b (or_intror Hb)) A1).
+    replace y with (upd y1 a (y a)). apply (HI a (or_introl eq_refl)).
+    extensionality b. unfold y1, upd. destruct (Nat.eqb_spec b a); subst; auto. Qed.
 
 Lemma valid_fibre l x y : valid x -> agree_out l x y -> inrange l y -> valid y.
 Proof. intros V A R a. destruct (in_dec Nat.eq_dec a l) as [I|I]. now apply R. rewrite (A a I). apply V. Qed.
@@ -259,7 +271,7 @@ Proof. unfold elimv, diff. rewrite filter_In. intros [_ H] I. apply negb_true_if
 Lemma new_H2 x : valid x -> M j i x <> zero -> m_new x = M i j x.
 Proof. intros V NZ. unfold m_new. rewrite M_rec by assumption. apply sum_vars_ext_on. intros y A R.
   apply claimB. exact (valid_fibre _ _ _ V A R).
-  rewrite (M_local j i y x); auto. intros a Ha. apply A. intro I. exact (elimv_notin _ I Ha). Qed.
+  rewrite (indep_agree (elimv i j) (M j i) x y); auto. intros a Ha. apply M_indep. now apply elimv_notin. Qed.
 End Step.
 
 Lemma edge_dec (e e' : nat*nat) : {e = e'} + {e <> e'}.
